@@ -205,4 +205,15 @@ CHECKS = {
                      "interleavings below operation granularity (inside the factory / handler-list locks) are not enumerated; the free-running race-detector pass over concurrent operations is supplementary (sampling)"],
         traces_are_evals=True,
     ),
+    "C20": dict(
+        level="model_checking",
+        rule="explicit-state BFS over sequences of CompositeController / DecoratorController events through the real Metacontroller.Reconcile: create, spec-changing update, no-op (metadata-only) update, delete, with 18 (decorator 16) spec variants = 2 plain + 8 valid optional-webhook-field variants (every ETag field set or unset, timeout zero/negative, strict, service+path) + 8 (6) configurations that cannot start; "
+             "one name with the full alphabet to depth 3 (thorough 4; the frontier empties = any number of further events), two names with a reduced alphabet to depth 3 (thorough 5, full alphabet 3); state = stored spec + running spec per name; after every event: instance set, specs, restart/no-op identity, stopped instances (queue shut, no handlers), factory refcounts, parent-event wake-up and hook isolation",
+        units=[
+            dict(pkg=COMPOSITE, test="TestVerifC20", shards=dict(quick=8, thorough=16), budget=dict(quick=600, thorough=3000)),
+            dict(pkg=DECORATOR, test="TestVerifC20", shards=dict(quick=8, thorough=16), budget=dict(quick=600, thorough=3000)),
+        ],
+        assumptions=SIM_ASSUMPTIONS + ["controller-runtime's fake client serves the controller objects and CRDs; numWorkers=0: the harness is the worker of every hosted instance (worker goroutine life-cycle is not covered)"],
+        traces_are_evals=False,
+    ),
 }
